@@ -180,7 +180,7 @@ def _absent(ctx, py):
         seen_none = seen_triple = False
         for pa, r in runs:
             if "error" in r:
-                bad.append("table used through an interface outside the contract: %s %s" % (r["error"], r["log"]["unknown"]))
+                engine = "table used through an interface the stand-in does not offer: %s %s" % (r["error"], r["log"]["unknown"])
                 continue
             asked = [d for k, d in r["log"]["asked"] if k == tq]
             if not asked:
@@ -207,6 +207,12 @@ def _absent(ctx, py):
         big = cls(pd.DataFrame(np.ones((3, 3)), index=[345600.0, 345601.0, 345602.0], columns=data.columns), 1.0)
         w_abs += [big.compute_matrices(t, pva, em) is None for t in (345600.5, 345601.0001, 345599.0, 345602.9)]
         w_pre += [big.compute_matrices(t, pva, em) is not None for t in (345600.0, 345602.0)]
+        # tables are labelled data: rows need not be in time order (two logs concatenated, newest first); duplicates aside, a
+        # present stamp is present wherever its row is stored
+        for order in ([3.0, 1.0, 2.0, 5.0, 4.0], [5.0, 4.0, 3.0, 2.0, 1.0], [2.0, 3.0, 1.0, 4.0, 5.0]):
+            uns = cls(pd.DataFrame(np.arange(15.0).reshape(5, 3) + 1.0, index=order, columns=data.columns), 1.0)
+            w_pre += [uns.compute_matrices(t, pva, em) is not None for t in (1.0, 2.0, 3.0, 4.0, 5.0)]
+            w_abs += [uns.compute_matrices(t, pva, em) is None for t in (0.5, 2.5, 6.0)]
         ok = not bad and all(w_abs) and all(w_pre)
         if ok and engine is not None:
             ok = None                      # undecided: the symbolic part could not run and the witnesses found nothing
